@@ -9,16 +9,6 @@ set_option linter.unusedSimpArgs false
 
 /-! ## bracket structure (specification side) -/
 
-def Cnt.inc (c : Cnt) : K → Cnt
-  | .brace => { c with brace := c.brace + 1 }
-  | .bracket => { c with bracket := c.bracket + 1 }
-  | .paren => { c with parant := c.parant + 1 }
-
-def Cnt.dec (c : Cnt) : K → Cnt
-  | .brace => { c with brace := c.brace - 1 }
-  | .bracket => { c with bracket := c.bracket - 1 }
-  | .paren => { c with parant := c.parant - 1 }
-
 theorem bump_br (c : Cnt) (t : Tok) :
     bump c t = match t.br with
       | .op k => c.inc k
@@ -43,11 +33,6 @@ theorem bump_br (c : Cnt) (t : Tok) :
 @[simp] theorem Cnt.dec_inc (c : Cnt) (k : K) : (c.inc k).dec k = c := by
   cases k <;> simp [Cnt.inc, Cnt.dec]
 
-/-- the counters that correspond to a stack of open brackets, on top of `c₀` -/
-def cntFrom (c₀ : Cnt) : List K → Cnt
-  | [] => c₀
-  | k :: s => (cntFrom c₀ s).inc k
-
 theorem bump_push (c₀ : Cnt) (stk s : List K) (t : Tok) (h : push stk t = some s) :
     bump (cntFrom c₀ stk) t = cntFrom c₀ s := by
   rw [bump_br]
@@ -62,8 +47,6 @@ theorem bump_push (c₀ : Cnt) (stk s : List K) (t : Tok) (h : push stk t = some
       · simp at h
     · simp at h
   · next hk => simp at h; subst h; simp [hk]
-
-def zeroCnt : Cnt := ⟨0, 0, 0⟩
 
 theorem cntFrom_zero_nonneg (stk : List K) :
     0 ≤ (cntFrom zeroCnt stk).brace ∧ 0 ≤ (cntFrom zeroCnt stk).bracket ∧ 0 ≤ (cntFrom zeroCnt stk).parant ∧
@@ -98,14 +81,6 @@ theorem stop_zero (m : Mode) (s : List K) (t : Tok) :
       simp; omega
     simp [hb]
   simp [this]
-
-/-- from stack `stk`: well nested, no EOF, and the loop (counters `cntFrom c₀ ·`) never stops inside -/
-def calm (m : Mode) (c₀ : Cnt) : List K → List Tok → Bool
-  | _, [] => true
-  | stk, t :: ts =>
-    match push stk t with
-    | none => false
-    | some s => t.typ != .eof && !(stop m (cntFrom c₀ s) t) && calm m c₀ s ts
 
 theorem calm_of_quiet (m : Mode) (stk : List K) (g : List Tok) (h : Quiet m stk g = true) :
     calm m zeroCnt stk g = true := by
